@@ -68,7 +68,6 @@ def snapshot(run):
         snap[h] = (
             id(t), t.data.tobytes(), t.shape, str(t.dtype), t.constant, id(t.base), id(t.creator), len(t._ops),
             t.data.flags.writeable,
-            None if t.grad is None else t.grad.tobytes(),
         )
     share = {}
     for i, h1 in enumerate(hs):
@@ -78,7 +77,7 @@ def snapshot(run):
     return snap, share, arrs
 
 
-SNAP_FIELDS = ["object", "data", "shape", "dtype", "constant", "base", "creator", "n_consumers", "writeable", "grad"]
+SNAP_FIELDS = ["object", "data", "shape", "dtype", "constant", "base", "creator", "n_consumers", "writeable"]
 
 
 def diff_snapshot(s1, s2):
